@@ -312,6 +312,22 @@ class Check(FormulaCheck):
             self.expect('C16/RANDBETWEEN-not-an-integer-in-[a,b]', is_num(g) and g == int(g) and a <= g <= b, a=a, b=b, got=g)
             rec.nt(('rb', a, b))
         self.expect('C16/RAND-not-random', len(seen) > spec['n'] // 2, distinct=len(seen))
+        # fault injection at the random source: whatever the generator draws - also its extremes 0.0 and 1-2**-53, which no sampling run
+        # will ever see - RAND stays in [0,1) and RANDBETWEEN in [a,b]
+        import random as stdlib_random
+        real = (stdlib_random.random, stdlib_random.uniform)
+        try:
+            for u in (0.0, 1 - 2.0 ** -53, 2.0 ** -53, 0.5, 1 - 2.0 ** -52, 2.0 ** -1074, 0.9999999999999999):
+                stdlib_random.random = lambda _u=u: _u
+                stdlib_random.uniform = lambda a, b, _u=u: a + (b - a) * _u
+                g = self.ev('RAND()')
+                self.expect('C16/RAND-outside-[0,1):generator-at-an-extreme', is_num(g) and 0 <= g < 1, generator_draw=u, got=g)
+                for a, b in ((1, 6), (0, 0), (-5, 5), (0, 1), (10, 10 ** 9)):
+                    g = self.ev('RANDBETWEEN(v_a,v_b)', v_a=a, v_b=b)
+                    self.expect('C16/RANDBETWEEN-not-an-integer-in-[a,b]:generator-at-an-extreme', is_num(g) and g == int(g) and a <= g <= b, a=a, b=b, generator_draw=u, got=g)
+                rec.nt(('rand-extreme', u))
+        finally:
+            stdlib_random.random, stdlib_random.uniform = real
         rec.sample({'formula': 'RANDBETWEEN(v_a,v_b)'})
 
     def extra(self, merged):
